@@ -20,6 +20,7 @@ import (
 	"sort"
 	"strings"
 	"sync"
+	"sync/atomic"
 	"time"
 
 	"github.com/go-redis/redis/v8"
@@ -59,8 +60,9 @@ type stOpts struct {
 	shareAPI     bool
 	groups       []stSubnetGroup // generation 1
 	noIngest     bool
-	geo          int  // GeoIP database: 0 = none (empty database), 1 = every address has a country code and an ASN, 2 = country "unk" (no ASN lookup), 3 = lookups fail, 4 = IPv4-only database (IPv6 lookups fail with the MaxMind reader's error, which quotes the address)
-	realDetector bool // keep the real sendToDetector / clearDetector and give them a go-redis client over a simulated connection
+	panicSig     string // signature for a panic in one of the station's own goroutines ("" = the process crashes, as before)
+	geo          int    // GeoIP database: 0 = none (empty database), 1 = every address has a country code and an ASN, 2 = country "unk" (no ASN lookup), 3 = lookups fail, 4 = IPv4-only database (IPv6 lookups fail with the MaxMind reader's error, which quotes the address)
+	realDetector bool   // keep the real sendToDetector / clearDetector and give them a go-redis client over a simulated connection
 }
 
 type stAnn struct {
@@ -103,7 +105,8 @@ type stWorld struct {
 	s           *hook.Sched
 	o           stOpts
 	rm          *cj.RegistrationManager
-	failDials   int // the next failDials dials fail with failDialErr
+	holdProbes  atomic.Bool // liveness probes do not return while set
+	failDials   int         // the next failDials dials fail with failDialErr
 	failDialErr error
 	cm          *connManager
 	priv        [32]byte
@@ -227,6 +230,11 @@ func newStWorld(r *sim.Run, s *hook.Sched, tp *sim.Tape, o stOpts) *stWorld {
 	w.rm.AddTransport(pb.TransportType_Prefix, pt)
 
 	hook.SetNetSeams(w.dial, w.resolve, w.post)
+	if o.panicSig != "" {
+		s.OnTaskPanic = func(task string, v any) {
+			r.Fail(o.panicSig, "a goroutine of the station (%s) panicked — the process is gone: %v", task, v)
+		}
+	}
 
 	w.ctx, w.cancel = context.WithCancel(context.Background())
 	w.wg = new(sync.WaitGroup)
@@ -371,6 +379,10 @@ type stTester struct{ w *stWorld }
 func (t *stTester) PhantomIsLive(addr string, port uint16) (bool, error) {
 	hook.Yield("liveness-probe")
 	w := t.w
+	for w.holdProbes.Load() {
+		// the probe takes its time (a worker is in the middle of a registration)
+		hook.Park(&hook.Op{Kind: "probe-held", Site: "tester", Enabled: func() bool { return !w.holdProbes.Load() }})
+	}
 	w.mu.Lock()
 	live := w.live[addr]
 	w.probes = append(w.probes, stProbe{addr, port, live, w.r.Elapsed()})
